@@ -13,6 +13,7 @@ import LLFreeV.Proofs.Run
 import LLFreeV.Model.Wrapper
 import LLFreeV.Gen.Check
 import LLFreeV.Proofs.GenMeta
+import LLFreeV.Proofs.GenZone
 namespace LLFree.C08
 open LLFree Prog
 
@@ -153,5 +154,19 @@ theorem metadata_sizes_match_source (g : Geom) (frames : Nat) (classes : List (N
     Gen.M.lowerSize (GenTree.tyOf g) g.hugeFrames g.treeFrames frames = lowerSize g frames ∧
     Gen.M.localsSize (GenTree.tyOf g) ((classes.map (·.2)).sum) = localsSize classes :=
   ⟨GenTree.treesSize_eq g frames, GenTree.lowerSize_eq g frames, GenTree.localsSize_eq g classes⟩
+
+/-- **A frame below the zone offset is rejected by the current source before the wrapped allocator is called**:
+    `ZoneAlloc::get` / `ZoneAlloc::put` as regenerated from `core/src/wrapper.rs` (`Gen/Zone.lean`) return
+    `Error::Argument` for every wrapped allocator `inner` — which is never consulted, so there is no side effect —
+    and `stats_at` returns the default statistics. -/
+theorem zone_below_offset_matches_source (off frame : Nat) (h : frame < off) :
+    (∀ inner, Gen.Z.get inner off (some frame) = .error .argument) ∧
+    (∀ inner, Gen.Z.put inner off frame = .error .argument) ∧
+    (∀ inner : Nat → Stats, Gen.Z.statsAt inner off frame = none) := by
+  have ht : Zone.toInner off frame = none := by simp [Zone.toInner, h]
+  refine ⟨fun inner => ?_, fun inner => ?_, fun inner => ?_⟩
+  · rw [GenZone.get_eq]; simp [ht]
+  · rw [GenZone.put_eq]; simp [ht]
+  · rw [GenZone.statsAt_eq]; simp [ht]
 
 end LLFree.C08
